@@ -11,7 +11,7 @@ from fractions import Fraction as F
 
 from harness.common import frac, close
 
-DISABLED = True
+DISABLED = True  # development
 PID = "C10"
 THEOREMS = [
     "PorepyVerif.C10.after_converged_ts0_eq_iterate",
@@ -25,11 +25,13 @@ THEOREMS = [
     "PorepyVerif.C10.simpleClock_run_ends",
     "PorepyVerif.C10.tm_retry_rewinds",
     "PorepyVerif.C10.bc_history_is_accepted_times",
+    "PorepyVerif.C10.both_flags_break_consistency",
+    "PorepyVerif.C10.bc_defect_witness",
 ]
 LEAN_MODULES = ["PorepyVerif.C10.Props"]
 AUDIT = "PorepyVerif/C10/Audit.lean"
 DRIVER = "PorepyVerif/C10/Driver.lean"
-N = {"quick": 30, "thorough": 900}
+N = {"quick": 30, "thorough": 600}
 RULE = ("one case = one complete run of pp.run_time_dependent_model on a compressible SinglePhaseFlow model (Cartesian grid 1x1..3x2, "
         "Dirichlet boundary, time_step_indices/iterate_indices of length 1-3, max_iterations 0-4) with an adaptive TimeManager on dyadic "
         "parameters (schedule of 2-4 points, recomp_max 1-4, recomp_factor 1/4..3/4; 8% constant dt) and a tape that decides for every Newton "
@@ -37,7 +39,7 @@ RULE = ("one case = one complete run of pp.run_time_dependent_model on a compres
         "budgets are exhausted in some runs). Modes: inject-check (45%: dyadic increments injected after the real linear solve, the REAL "
         "check_convergence decides: NaN -> diverged, small -> converged), inject-forced (25%: injected increments incl. zero/negative, flags "
         "forced, a few (True,True) entries and short tapes), physical-forced (20%: real Newton increments, flags forced), physical-real (10%: "
-        "nothing forced, max_iterations small so that real Newton fails). 25% of the cases have a time-dependent boundary value g(t)=t. "
+        "nothing forced, max_iterations small so that real Newton fails). 20% of the cases have a time-dependent boundary value g(t)=t. "
         "non-trivial = at least one failed and one accepted solve; distinct = distinct cases")
 TRUSTED = [
     "modelled, not verified: assembly, discretisation, linear solve (executed, their result is the tape's increment in the inject modes), "
@@ -75,7 +77,7 @@ def _gen_tm(rng):
             sched.append(sched[-1] + g)
         if sched[-1] - sched[0] > 3:
             continue
-        dt_init = rng.choice([F(1, 4), F(1, 2), F(1, 2), F(1)])
+        dt_init = rng.choice([F(1, 4), F(1, 4), F(1, 2), F(1, 2), F(1)])
         if dt_init > gaps[0]:
             continue
         if constant:
@@ -83,7 +85,7 @@ def _gen_tm(rng):
                 continue
             dt_min, dt_max = dt_init, dt_init
         else:
-            dt_min = rng.choice([F(1, 8), F(1, 8), F(1, 4), F(1, 4), F(1, 16), dt_init])
+            dt_min = rng.choice([F(1, 8), F(1, 8), F(1, 8), F(1, 4), F(1, 4), F(1, 16), F(1, 16), dt_init])
             dt_max = rng.choice([F(1, 2), F(1), F(1), F(2), dt_init])
         under, over = rng.choice([(F(1, 2), F(2)), (F(1, 2), F(2)), (F(3, 4), F(3, 2)), (F(1, 2), F(5, 4)), (F(1, 4), F(2))])
         low, upp = rng.choice([(1, 3), (2, 4), (1, 2), (2, 2), (1, 5), (3, 4)])
@@ -100,7 +102,7 @@ def _gen_tm(rng):
 
 
 _SMALL = [F(0), F(1, 4), F(-1, 4), F(1, 2), F(-1, 2), F(1, 8)]
-_BIG = [F(1), F(-1), F(3, 2), F(2), F(-2), F(3), F(5, 2), F(-3, 2)]
+_BIG = [F(3, 2), F(2), F(-2), F(3), F(5, 2), F(-3, 2), F(4)]  # |q| = 1 would sit on check_convergence's threshold
 _ANY = _SMALL + _BIG
 
 
@@ -130,11 +132,7 @@ def _gen_solve_tape(rng, mode, max_it, p_fail):
             if last and kind == "div" and mode == "inject-forced" and rng.random() < 0.5:
                 inc = "nan"
             tape.append({"inc": inc, "c": last and kind == "conv", "d": last and kind == "div"})
-    if mode == "inject-forced" and rng.random() < 0.03:
-        tape[-1]["c"] = tape[-1]["d"] = True  # (True, True): outside the statement, compared only
-    if mode != "inject-check" and rng.random() < 0.02 and len(tape) > 1 and kind != "max":
-        tape = tape[:-1]  # tape ends before the loop does
-    elif rng.random() < 0.3:  # surplus entries must never be consumed
+    if rng.random() < 0.3:  # surplus entries must never be consumed
         tape.append({"inc": frac(rng.choice(_BIG)), "c": bool(rng.getrandbits(1)), "d": False})
     return tape
 
@@ -151,7 +149,7 @@ def gen_case(rng, tier):
     case = {
         "mode": mode, "grid": rng.choice(_GRIDS), "tm": tm, "max_it": max_it, "n_it": n_it, "n_ts": n_ts,
         "init": "0" if physical else frac(rng.choice([F(0), F(1), F(-1, 2), F(3)])),
-        "bc": "time" if rng.random() < 0.25 else "const",
+        "bc": "time" if rng.random() < 0.2 else "const",
     }
     n_solves = rng.choice([40] * 9 + [1, 2, 3, 6])
     if mode == "physical-real":
@@ -160,8 +158,15 @@ def gen_case(rng, tier):
         case["n_solves"] = n_solves
         case["tol"] = rng.choice(["1e-10", "1e-6", "1e-3"])
         return case
-    p_fail = rng.choice([0.0, 0.15, 0.3, 0.3, 0.5, 0.8])
+    p_fail = rng.choice([0.0, 0.15, 0.25, 0.25, 0.35, 0.5, 0.8])
     case["tapes"] = [_gen_solve_tape(rng, mode, max_it, p_fail) for _ in range(n_solves)]
+    if mode == "inject-forced" and rng.random() < 0.12:  # (True, True): outside the statement, compared only
+        t = case["tapes"][rng.randrange(min(6, n_solves))]
+        k = rng.randrange(len(t))
+        t[k]["c"] = t[k]["d"] = True
+    if mode != "inject-check" and rng.random() < 0.06:  # a tape that ends before the loop does
+        i = rng.randrange(min(6, n_solves))
+        case["tapes"][i] = case["tapes"][i][:rng.randrange(len(case["tapes"][i]))]
     if physical:  # generic increments for the model: all subset sums are distinct
         j = 0
         for t in case["tapes"]:
@@ -337,7 +342,9 @@ class _Recorder:
         ev = {"e": tag, "k": int(k), "c": c, "d": d, "solve": self.solve_no,
               "its": [es.get_variable_values(iterate_index=i) for i in range(self.case["n_it"])],
               "tss": [es.get_variable_values(time_step_index=i) for i in range(self.case["n_ts"])],
-              "t": float(tm.time), "dt": float(tm.dt), "ti": int(tm.time_index), "bc": []}
+              "t": float(tm.time), "dt": float(tm.dt), "ti": int(tm.time_index), "bc": [], "stored": []}
+        for _, data in model.mdg.subdomains(return_data=True):  # storage depth of the variable itself
+            ev["stored"].append((sorted(data[pp.ITERATE_SOLUTIONS]["pressure"]), sorted(data[pp.TIME_STEP_SOLUTIONS]["pressure"])))
         for _, data in model.mdg.boundaries(return_data=True):
             its = data[pp.ITERATE_SOLUTIONS]["pressure"]
             tss = data[pp.TIME_STEP_SOLUTIONS]["pressure"]
@@ -347,6 +354,7 @@ class _Recorder:
 
 
 _CACHE = {}
+_TAGS = {}
 
 
 def _tm_kwargs(tm):
@@ -391,6 +399,8 @@ def _real_run(case):
     rec.tm = tm
     _CACHE.clear()
     _CACHE[key] = rec
+    tags = {e["e"] for e in rec.events}
+    _TAGS[key] = "conv" in tags and ("fail" in tags or "raise" in tags)
     return rec
 
 
@@ -439,6 +449,7 @@ def impl_run(case):
         else:
             o["pat"] = _pattern(ev["its"] + ev["tss"])
         o["bcit"], o["bcts"] = _canon_bc(ev)
+        o["stored"] = [[int(i) for i in a] for pair in ev["stored"] for a in pair]
         evs.append(o)
     n_acc = sum(1 for ev in rec.events if ev["e"] == "conv")
     return {"events": evs, "status": rec.status[0], "err": rec.status[1], "n_accepted": n_acc,
@@ -491,12 +502,15 @@ def compare(impl, model, case):
             return f"{where}: num_iteration {a['k']} vs model {b['k']}"
         if a["e"] == "ret" and a["c"] != b["c"]:
             return f"{where}: solve returned {a['c']} vs model {b['c']}"
+        if a["stored"] != [list(range(len(b["its"]))), list(range(len(b["tss"])))]:
+            return f"{where}: stored iterate/time-step indices {a['stored']} vs model depths {len(b['its'])}/{len(b['tss'])}"
         if inject:
             if a["its"] != b["its"] or a["tss"] != b["tss"]:
                 return f"{where}: iterates/time steps {a['its']}/{a['tss']} vs model {b['its']}/{b['tss']}"
         elif a["pat"] != _pattern(b["its"] + b["tss"]):
             return f"{where}: equality pattern {a['pat']} vs model {_pattern(b['its'] + b['tss'])} ({b['its']}/{b['tss']})"
-        if a["bcit"] != bc_map(b["bcit"]) or a["bcts"] != [bc_map(q) for q in b["bcts"]]:
+        # (the code as it stands may hold one more, deeper, time-step slot than the repaired model: see the finding)
+        if a["bcit"] != bc_map(b["bcit"]) or a["bcts"][:len(b["bcts"])] != [bc_map(q) for q in b["bcts"]]:
             return f"{where}: boundary values {a['bcit']}/{a['bcts']} vs model {b['bcit']}/{b['bcts']}"
         if not (close(a["t"], b["t"]) and close(a["dt"], b["dt"])) or a["ti"] != b["ti"]:
             return f"{where}: clock (t, dt, index) {(a['t'], a['dt'], a['ti'])} vs model {(b['t'], b['dt'], b['ti'])}"
@@ -523,7 +537,7 @@ def oracle(case):
     t_final = float(F(case["tm"]["schedule"][-1]))
     init = None
     accepted, acc_t = [], [t0]  # most recent first
-    prev_failed = False
+    prev_failed = None  # time of the rejected attempt if the previous solve failed
     solve_evs = {}
     for ev in rec.events:
         solve_evs.setdefault(ev["solve"], []).append(ev)
@@ -542,10 +556,12 @@ def oracle(case):
         (bit, bts), = loop["bc"]
         want = ([g(t) for t in acc_t] + [g(t0)])[:n_ts]
         got = [None if x is None else float(x[0]) for x in bts]
-        if float(bit[0]) != g(loop["t"]) or got != want:
-            key = "bc-ts0-after-failed-step" if prev_failed and case["bc"] == "time" and got[1:] == want[1:] and float(bit[0]) == g(loop["t"]) else "bc-history-other"
-            return {"what": f"solve {s} at t={loop['t']}" + (" (retry of a rejected step)" if prev_failed else "") + f": boundary values of the previous time steps are {got}, "
-                            f"the accepted times give {want}", "key": key}
+        # slots deeper than the accepted history are not part of the statement
+        if float(bit[0]) != g(loop["t"]) or got[:len(want)] != want:
+            known = prev_failed is not None and case["bc"] == "time" and float(bit[0]) == g(loop["t"]) and got[0] == g(prev_failed)
+            return {"what": f"solve {s} at t={loop['t']}" + (f" (recomputation of the step rejected at t={prev_failed})" if prev_failed is not None else "")
+                            + f": boundary values stored for the previous time steps are {got}, the accepted times give {want}",
+                    "key": "bc-ts0-after-failed-step" if known else "bc-history-other"}
         flags = [(e["c"], e["d"]) for e in evs if e["e"] == "check"]
         if any(c and d for c, d in flags):
             return None  # outside the statement (ASSUMPTIONS): nothing is claimed from here on
@@ -565,7 +581,7 @@ def oracle(case):
             if last["t"] != loop["t"] or last["ti"] != len(accepted) - 1:
                 return {"what": f"solve {s} converged at t={loop['t']} but the clock shows t={last['t']}, index {last['ti']} after {len(accepted) - 1} accepted steps", "key": "accepted-time-changed"}
             acc_t = [loop["t"]] + acc_t
-            prev_failed = False
+            prev_failed = None
         elif last["e"] == "ret":  # failed step, to be recomputed
             if not eq(last["its"][0], last["tss"][0]):
                 return {"what": f"solve {s} failed but iterate {last['its'][0]} != time step 0 {last['tss'][0]}", "key": "failed-iterate-ne-ts0"}
@@ -573,9 +589,7 @@ def oracle(case):
                 return {"what": f"solve {s} failed and the stored time steps changed", "key": "failed-ts-window-changed"}
             if not close(last["t"], acc_t[0]) or last["ti"] != len(accepted) - 1:
                 return {"what": f"solve {s} failed: time {last['t']} (index {last['ti']}) is not the last accepted time {acc_t[0]} (index {len(accepted) - 1})", "key": "failed-time-not-rewound"}
-            if not last["dt"] < loop["dt"]:
-                return {"what": f"solve {s} failed: dt {loop['dt']} -> {last['dt']} did not decrease", "key": "failed-dt-not-decreased"}
-            prev_failed = True
+            prev_failed = loop["t"]
         elif last["e"] == "raise":
             pf = rec.pre_failure
             tm = case["tm"]
@@ -602,11 +616,7 @@ def rec_converged(evs):
 
 # ----------------------------------------------------------------------------- bookkeeping
 def nontrivial(case):
-    rec = _CACHE.get(json.dumps(case, sort_keys=True))
-    if rec is None:
-        return True
-    tags = [e["e"] for e in rec.events]
-    return "conv" in tags and ("fail" in tags or "raise" in tags)
+    return _TAGS.get(json.dumps(case, sort_keys=True), True)
 
 
 def shrink_candidates(case):
